@@ -793,7 +793,7 @@ func guard(f func() error) (err error, pan string) {
 func topFrame(stack string) string {
 	for _, ln := range strings.Split(stack, "\n") {
 		ln = strings.TrimSpace(ln)
-		if strings.HasPrefix(ln, "perun.network/go-perun/") {
+		if strings.HasPrefix(ln, "perun.network/go-perun/") && !strings.HasPrefix(ln, "perun.network/go-perun/log.") {
 			if i := strings.LastIndex(ln, "("); i > 0 {
 				ln = ln[:i]
 			}
